@@ -980,3 +980,119 @@ func (c *Ctx) ruleUnquote() {
 		r.Undecided("C08-UNQUOTE", "sites", "no consumer of a parameter lexeme value found", "")
 	}
 }
+
+// ruleNormalisers: newline content inside Description text and annotations is normalised the same way for LF, CRLF and CR.
+func (c *Ctx) ruleNormalisers() {
+	r := c.R
+	r.Rule("C08-NORMALISERS", "core.description replaces CRLF by LF BEFORE it replaces a lone CR by LF (the other order turns CRLF into two line ends) and does both before anything else looks at the text; catalog.Annotation trims and collapses every run of white space (regexp \\s+, which covers CR, LF and TAB) into one blank", 2)
+	if f := c.fn("core", "description"); f != nil {
+		pk := f.Pkg
+		type rep struct {
+			old, new string
+			pos       int
+		}
+		var reps []rep
+		lit := func(e ast.Expr) (string, bool) {
+			cl, ok := ast.Unparen(e).(*ast.CompositeLit)
+			if !ok {
+				if call, ok := ast.Unparen(e).(*ast.CallExpr); ok && len(call.Args) == 1 {
+					if s, ok := constString(pk, call.Args[0]); ok {
+						return s, true
+					}
+				}
+				return "", false
+			}
+			var bs []byte
+			for _, el := range cl.Elts {
+				v, ok := constInt(pk, el)
+				if !ok {
+					return "", false
+				}
+				bs = append(bs, byte(v))
+			}
+			return string(bs), true
+		}
+		firstOther := -1
+		for i, st := range f.Decl.Body.List {
+			isRep := false
+			ast.Inspect(st, func(n ast.Node) bool {
+				if call, ok := n.(*ast.CallExpr); ok {
+					if cal := callee(pk, call); cal != nil && cal.Pkg() != nil && cal.Pkg().Path() == "bytes" && cal.Name() == "ReplaceAll" && len(call.Args) == 3 {
+						o, ok1 := lit(call.Args[1])
+						nw, ok2 := lit(call.Args[2])
+						if ok1 && ok2 {
+							reps = append(reps, rep{o, nw, i})
+							isRep = true
+						}
+					}
+				}
+				return true
+			})
+			if !isRep && firstOther < 0 {
+				firstOther = i
+			}
+		}
+		crlf, cr := -1, -1
+		for _, x := range reps {
+			if x.old == "\r\n" && x.new == "\n" {
+				crlf = x.pos
+			}
+			if x.old == "\r" && x.new == "\n" {
+				cr = x.pos
+			}
+		}
+		switch {
+		case crlf < 0 || cr < 0:
+			r.Bad("C08-NORMALISERS", "description", "Description text is not normalised for both CRLF and CR line ends", c.pos(f.Decl.Pos()))
+		case crlf > cr:
+			r.Bad("C08-NORMALISERS", "description", "a lone CR is replaced before CRLF: every CRLF becomes two line ends, so a CRLF document gets blank lines in its descriptions", c.pos(f.Decl.Pos()))
+		case firstOther >= 0 && firstOther < cr:
+			r.Bad("C08-NORMALISERS", "description", "the text is inspected before its line ends are normalised", c.pos(f.Decl.Pos()))
+		default:
+			r.Ok("C08-NORMALISERS", "description", "CRLF -> LF, then CR -> LF, before anything else", c.pos(f.Decl.Pos()))
+		}
+	} else {
+		r.Undecided("C08-NORMALISERS", "description", "core.description not found", "")
+	}
+	if f := c.fn("catalog", "Annotation"); f != nil {
+		pk := f.Pkg
+		trims, collapses := false, false
+		ast.Inspect(f.Decl.Body, func(n ast.Node) bool {
+			call, ok := n.(*ast.CallExpr)
+			if !ok {
+				return true
+			}
+			cal := callee(pk, call)
+			if cal == nil {
+				return true
+			}
+			if cal.Name() == "TrimSpace" {
+				trims = true
+			}
+			if cal.Name() == "ReplaceAllString" && len(call.Args) == 2 {
+				if s, ok := constString(pk, call.Args[1]); ok && s == " " {
+					// the regexp variable's pattern
+					if sel, ok := ast.Unparen(call.Fun).(*ast.SelectorExpr); ok {
+						if id, ok := ast.Unparen(sel.X).(*ast.Ident); ok {
+							if v, ok := pk.TypesInfo.Uses[id].(*types.Var); ok {
+								if init, ok := varInitializer(pk, v).(*ast.CallExpr); ok && len(init.Args) == 1 {
+									if pat, ok := constString(pk, init.Args[0]); ok && pat == `\s+` {
+										collapses = true
+									}
+								}
+							}
+						}
+					}
+				}
+			}
+			return true
+		})
+		if trims && collapses {
+			r.Ok("C08-NORMALISERS", "annotation", "TrimSpace + \\s+ -> one blank", c.pos(f.Decl.Pos()))
+		} else {
+			r.Bad("C08-NORMALISERS", "annotation", fmt.Sprintf("annotation white space is not normalised (trim=%v, collapse \\s+=%v): a multi-line /* */ annotation differs between LF and CRLF documents", trims, collapses), c.pos(f.Decl.Pos()))
+		}
+	} else {
+		r.Undecided("C08-NORMALISERS", "annotation", "catalog.Annotation not found", "")
+	}
+}
